@@ -776,9 +776,11 @@ def compare_chunk(args):
         impl_err = req.get("err")
         if impl_err == "ypath":
             stats["ypath"] += 1
-        # keyword results: [name()] yields a key, not a document node - coordinates of keyword paths are not judged (C02)
+        # keyword results: [name()] yields a key, not a document node - its coordinates are not judged (C02); the results of
+        # every other keyword (parent, has_child, min, max, unique, distinct) are document nodes and are judged directly
         kw_path = has_keyword(segs)
-        probs = [] if kw_path else (req.get("problems") or [])
+        kw_name = "KW:name" in kinds.split(",")
+        probs = [] if kw_name else (req.get("problems") or [])
         impl_addrs = None if impl_err else [addr_only(r) for r in req["res"]]
         spec_g = dict(m_spec)
         # get_nodes(mustexist=True) raises when nothing matched; a null document yields nothing
@@ -848,6 +850,8 @@ def compare_chunk(args):
         # ---- C02: coordinates, ancestry, path text, re-query
         if opts.get("c02") and impl_err is None and not bad and not kw_path:
             c02_compare(case, kinds, req, m_req, d, table, stats, report, viol)
+        elif opts.get("c02") and impl_err is None and kw_path and not kw_name:
+            c02_direct(case, kinds, req, stats, report, viol)
         if len(samples) < 2 and impl_err is None and impl_addrs and len(segs) > 1:
             samples.append({"doc": doc, "path": text, "impl": impl_addrs, "spec": spec_addrs})
     stats["nontrivial"] = len(nontrivial)
@@ -905,6 +909,42 @@ def c02_compare(case, kinds, req, m_req, d, table, stats, report, viol):
             last_is_anchor = isegs[-1][0] == "ANCHOR"
             node_obj = resolve(rd, a)
             if last_is_anchor or all(isinstance(x, list) and resolve(rd, x) is node_obj for x in got):
+                continue
+        if got != [a]:
+            report(viol, "c02:path-does-not-reresolve:%s" % kinds,
+                   "%r: result %s reports path %r, which evaluates to %s" % (text, a, ptxt, rq.get("err") or got),
+                   dict(case, impl=ir, requery=rq, prop="C02"))
+
+
+def c02_direct(case, kinds, req, stats, report, viol):
+    """Keyword paths (no [name()]): the property's clauses judged on the real code alone.  parent[parentref] is the node
+    (canon_nc -> problems, reported by the caller); the ancestry walks from the root to the node; str(path) re-queried on
+    the same document returns exactly that node."""
+    text = case["path"]
+    stats["kw_judged"] = stats.get("kw_judged", 0) + 1
+    for ir in req["res"]:
+        if "v" in ir or ir.get("a") is None:
+            continue
+        a = ir["a"]
+        if len(a) >= 2:
+            stats["deep_results"] += 1
+        stats["kw_results"] = stats.get("kw_results", 0) + 1
+        if ir.get("anc_walk") is not None:
+            report(viol, "c02:ancestry-not-chain:%s" % kinds, "%r: ancestry of result %s: %s" % (text, a, ir["anc_walk"]),
+                   dict(case, impl=ir, prop="C02"))
+            continue
+        ptxt = ir.get("path")
+        if ptxt is None:
+            report(viol, "c02:no-path:%s" % kinds, "%r: result %s has no path" % (text, a), dict(case, prop="C02"))
+            continue
+        isegs = with_timer(lambda: parse_segments(ptxt))
+        stats["requeries"] += 1
+        rq, rd, _rt = run_query(case["doc"], ptxt, "req")
+        got = None if rq.get("err") else [addr_only(x) for x in rq["res"]]
+        has_anchor = any(sg[0] == "ANCHOR" for sg in (isegs or []))
+        if has_anchor and got is not None and a in got:
+            node_obj = resolve(rd, a)
+            if isegs[-1][0] == "ANCHOR" or all(isinstance(x, list) and resolve(rd, x) is node_obj for x in got):
                 continue
         if got != [a]:
             report(viol, "c02:path-does-not-reresolve:%s" % kinds,
